@@ -212,8 +212,14 @@ Proof. induction n as [|n IH]; intros j; destruct j; cbn [repeat nth]; auto. Qed
 
 (* ---------- the whole header ---------- *)
 Definition table_ok (lr : N) (alpha fr : list N) : Prop :=
-  length fr = 256%nat /\ Forall (sym_ok fr (2 ^ lr)) alpha /\ ssum fr alpha = 2 ^ lr /\
+  length fr = 256%nat /\ Forall (fun a => a < 256 /\ 1 <= fq fr a) alpha /\ ssum fr alpha = 2 ^ lr /\
   (forall j : nat, (j < 256)%nat -> ~ In (N.of_nat j) alpha -> nth j fr 0 = 0).
+
+Lemma ssum_ge fr : forall l a, In a l -> fq fr a <= ssum fr l.
+Proof.
+  induction l as [|x t IH]; intros a H; [contradiction|]. cbn [ssum fold_right]. fold (ssum fr t).
+  destruct H as [->|H]; [lia|]. specialize (IH a H). lia.
+Qed.
 
 Lemma chunks_ops_ok lr fr : 8 <= lr <= 15 -> forall chs, Forall (Forall (sym_ok fr (2 ^ lr))) chs ->
   Forall aop_ok (map conv (flat_map (chunk_ops lr fr) chs)).
@@ -229,21 +235,46 @@ Proof.
   - intros H. exists (N.of_nat j). split; [exact H|]. rewrite Nat2N.id. apply Nat.eqb_refl.
 Qed.
 
+Lemma table_tail_ok lr alpha fr : table_ok lr alpha fr -> Forall (sym_ok fr (2 ^ lr)) (tl alpha).
+Proof.
+  intros (_ & Hok0 & Hsum & _). destruct alpha as [|a0 ar]; [constructor|]. cbn [tl]. cbn [ssum fold_right] in Hsum. fold (ssum fr ar) in Hsum.
+  pose proof (Forall_inv Hok0) as [_ H0]. apply Forall_inv_tail in Hok0 as Hr. apply Forall_forall. intros a Ha. rewrite Forall_forall in Hr.
+  destruct (Hr a Ha) as [X1 X2]. pose proof (ssum_ge fr ar a Ha). split; [exact X1|split; [exact X2|lia]].
+Qed.
+
+Lemma header_ops_ok lr alpha fr hops : 8 <= lr <= 15 -> table_ok lr alpha fr -> header_ops lr alpha fr = Some hops ->
+  Forall aop_ok (map conv hops).
+Proof.
+  intros Hlr Htab Hh. pose proof (table_tail_ok lr alpha fr Htab) as Htl. destruct Htab as (_ & Hok0 & _ & _).
+  assert (Hb : Forall (fun x => x < 256) alpha) by (eapply Forall_impl; [|exact Hok0]; intros a [X _]; exact X).
+  unfold header_ops in Hh. destruct (encode_alphabet alpha) as [aops|] eqn:Ea; [|discriminate].
+  pose proof (encode_alphabet_ok alpha aops Hb Ea) as Hao.
+  destruct (Nat.eqb (length alpha) 0); inversion Hh; subst hops; [exact Hao|].
+  rewrite map_app. apply abvs_app_ok0; [exact Hao|]. cbn [map conv]. constructor; [cbn [aop_ok wop_ok]; lia|].
+  rewrite freq_ops_eq. apply chunks_ops_ok; [exact Hlr|]. apply chunks_sym_ok. exact Htl.
+Qed.
+
 Theorem range_header_roundtrip lr alpha fr hops s fr0 t P p :
   8 <= lr <= 15 -> StronglySorted N.lt alpha -> alpha <> [] -> table_ok lr alpha fr -> length fr0 = 256%nat ->
   header_ops lr alpha fr = Some hops -> RA s -> Forall aop_ok t -> p < 2 ^ P ->
   uval s = fst (abvs (map conv hops ++ t)) * 2 ^ P + p -> total s = snd (abvs (map conv hops ++ t)) + P ->
   exists s', decode_header s fr0 = (s', HFreqs alpha fr lr) /\ RA s' /\ uval s' = fst (abvs t) * 2 ^ P + p /\ total s' = snd (abvs t) + P.
 Proof.
-  intros Hlr Hs Hne (Hlen & Hok & Hsum & Hzero) Hl0 Hh HR Ht Hp HU HT.
-  assert (Hb : Forall (fun x => x < 256) alpha) by (eapply Forall_impl; [|exact Hok]; intros a [X _]; exact X).
+  intros Hlr Hs Hne (Hlen & Hok0 & Hsum & Hzero) Hl0 Hh HR Ht Hp HU HT.
+  assert (Hb : Forall (fun x => x < 256) alpha) by (eapply Forall_impl; [|exact Hok0]; intros a [X _]; exact X).
+  (* every frequency but the first one is below the scale: the first one is at least 1 and they sum to the scale *)
+  assert (Hok : Forall (fun a => a < 256 /\ 1 <= fq fr a) alpha /\ Forall (sym_ok fr (2 ^ lr)) (tl alpha)).
+  { split; [exact Hok0|]. destruct alpha as [|a0 ar]; [constructor|]. cbn [tl]. cbn [ssum fold_right] in Hsum. fold (ssum fr ar) in Hsum.
+    pose proof (Forall_inv Hok0) as [_ H0]. apply Forall_inv_tail in Hok0 as Hr. apply Forall_forall. intros a Ha. rewrite Forall_forall in Hr.
+    destruct (Hr a Ha) as [X1 X2]. pose proof (ssum_ge fr ar a Ha). split; [exact X1|split; [exact X2|lia]]. }
+  destruct Hok as [Hok Htl0].
   unfold header_ops in Hh. destruct (encode_alphabet alpha) as [aops|] eqn:Ea; [|discriminate].
   assert (Hn0 : Nat.eqb (length alpha) 0 = false) by (destruct alpha; [congruence|reflexivity]). rewrite Hn0 in Hh. inversion Hh; subst hops. clear Hh.
   assert (Hlen256 : (length alpha <= 256)%nat).
   { unfold encode_alphabet in Ea. destruct (Nat.ltb 256 (length alpha)) eqn:X; [discriminate|]. apply Nat.ltb_ge in X. exact X. }
   set (chk := if Nat.ltb (length alpha) 64 then 6%nat else 8%nat) in *.
   set (chs := chunks_of (length alpha) chk (tl alpha)).
-  assert (Htl : Forall (sym_ok fr (2 ^ lr)) (tl alpha)) by (destruct alpha; [constructor|apply Forall_inv_tail in Hok; exact Hok]).
+  assert (Htl : Forall (sym_ok fr (2 ^ lr)) (tl alpha)) by exact Htl0.
   assert (Hchs : Forall (Forall (sym_ok fr (2 ^ lr))) chs) by (apply chunks_sym_ok; exact Htl).
   assert (Hfo : Forall aop_ok (map conv (freq_ops lr alpha fr))) by (rewrite freq_ops_eq; fold chk chs; apply chunks_ops_ok; assumption).
   rewrite map_app, <- app_assoc in HU, HT. cbn [map conv app] in HU, HT.
@@ -264,8 +295,8 @@ Proof.
   set (a0 := hd 0 alpha). set (ar := tl alpha) in *.
   assert (Ealpha : alpha = a0 :: ar) by (unfold a0, ar; destruct alpha; [congruence|reflexivity]).
   assert (Hs0 : ssum fr alpha = fq fr a0 + ssum fr ar) by (rewrite Ealpha; reflexivity).
-  assert (Ha0 : sym_ok fr (2 ^ lr) a0) by (rewrite Ealpha in Hok; apply Forall_inv in Hok; exact Hok).
-  destruct Ha0 as [Ha0l [Ha01 Ha02]].
+  assert (Ha0 : a0 < 256 /\ 1 <= fq fr a0) by (rewrite Ealpha in Hok; apply Forall_inv in Hok; exact Hok).
+  destruct Ha0 as [Ha0l Ha01].
   replace (2 ^ lr <=? ssum fr ar) with false by (symmetry; apply N.leb_gt; lia).
   replace (2 ^ lr - ssum fr ar) with (fq fr a0) by lia.
   exists s3. split; [|auto]. f_equal. f_equal.
@@ -289,13 +320,14 @@ Qed.
 (* written anywhere in a stream (here: first, then any program), closed, read back with any buffer size and source schedule *)
 Theorem range_header_stream_roundtrip wbuf rbuf sched lr alpha fr hops fr0 rest :
   8 <= lr <= 15 -> StronglySorted N.lt alpha -> alpha <> [] -> table_ok lr alpha fr -> length fr0 = 256%nat ->
-  header_ops lr alpha fr = Some hops -> Forall aop_ok (map conv hops) ->
+  header_ops lr alpha fr = Some hops ->
   40 <= wbuf -> wbuf mod 8 = 0 -> 0 < rbuf -> rbuf mod 8 = 0 -> Forall aop_ok rest ->
   exists s1 s2 s', run_aops (new_obs wbuf) (map conv hops ++ rest) = (s1, false) /\ close healthy s1 = (s2, false) /\
     decode_header (new_ibs rbuf (mkSrc (o_out s2) sched None 0)) fr0 = (s', HFreqs alpha fr lr) /\
     run_arops s' (arops_of rest) = avals_of rest.
 Proof.
-  intros Hlr Hs Hne Htab Hl0 Hh Hops Hw Hw8 Hr Hr8 Hrest.
+  intros Hlr Hs Hne Htab Hl0 Hh Hw Hw8 Hr Hr8 Hrest.
+  pose proof (header_ops_ok lr alpha fr hops Hlr Htab Hh) as Hops.
   assert (Hall : Forall aop_ok (map conv hops ++ rest)) by (apply Forall_app; split; assumption).
   destruct (array_image wbuf _ Hw Hw8 Hall) as (s1 & s2 & pad & V & L & E1 & E2 & EV & Hcl & Hpad & Hlen & Himg & _).
   exists s1, s2.
